@@ -68,13 +68,17 @@ def commands(ctx, tier, seed):
         out[cfgname] = vs
     return out
 
+NOSUCH_SEEN = []
+
 def compare(ctx, cmds, fbe):
     impl = vlib.run_harness(ctx, cmds, exe=ctx['hx_fbe'] if fbe else None)
     model = vlib.run_oracle(ctx, cmds, fbe=fbe)
     bad, unmod = [], 0
     for c, i, m in zip(cmds, impl, model):
-        if m in ('UNMOD',):
-            unmod += 1
+        if m in ('UNMOD', 'NOSUCH'):
+            unmod += 1          # outside the model's domain, or a function the translator does not recognise (any more): not a comparison
+            if m == 'NOSUCH':
+                NOSUCH_SEEN.append(c)
             continue
         ii = i
         if c.split()[0] in ('G', 'RG') and i.startswith('V '):
@@ -116,6 +120,9 @@ def check(ctx, tier, seed, t0):
             proof['broken'].append({'file': 'big-endian execution stage (cbmc)', 'line': 0, 'error': pr[:400]})
     except Exception as e:
         proof['broken'].append({'file': 'big-endian execution stage (cbmc)', 'line': 0, 'error': str(e)[:400]})
+    if NOSUCH_SEEN:
+        proof['broken'].append({'file': 'correspondence C14 (functions of the sample the translator does not recognise)', 'line': 0,
+                                'error': '%d commands name functions without a model, e.g. %s' % (len(NOSUCH_SEEN), NOSUCH_SEEN[0][:160])})
     if tie_bad:
         # a conversion site that behaves differently from the model in one configuration: report with the command as replay
         for b in tie_bad[:20]:
